@@ -984,6 +984,10 @@ class World:
         except ValueError:
             self.log.append(f"  {ent.name} route-reject {pdu_info(pdu)}")
             self.probe("route_reject")
+            for m in self.monitors:
+                f = getattr(m, "on_route_error", None)
+                if f:
+                    f(self, ent, pdu)
             return None
         hk = "src" if dest == PacketDestination.SOURCE_HANDLER else "dst"
         for m in self.monitors:
